@@ -18,7 +18,8 @@ LEVEL = "exploration"
 ASSUMPTIONS = [
     "trees satisfy the statement's precondition: built with add_child/add_namespace so a child's prefixes include its parent's; "
     "attribute/extras values are strings",
-    "shapes up to 5 (thorough 6) nodes, up to 2 (thorough 3 on shapes <= 4 nodes) field deviations from the menu",
+    "shapes up to 5 (thorough 6) nodes, up to 2 (thorough 3 on shapes <= 4 nodes) field deviations from the menu; beyond that the fixed "
+    "deep / wide / many-attribute trees of scale_trees()",
 ]
 
 TEXTS = ["", " ", "x", "\"\\/\b\f\n\r\t", "\u00e9", "\u2028", "\U0001F600", "\x00", "z" * 10240]
